@@ -478,10 +478,12 @@ def c11():
         id="C11", level="exploration", engine="bgpmon", post=_p256_post("C11"),
         builds=[dict(name="bgpmon", config="asan", harness=["bgpmon.c"], wraps=["lrtr_dbg"])],
         runs=[dict(name="validate", bin="bgpmon", config="asan", mode="validate", cases=T(9000, 120000), args=["hops=8", "flips=36", "p256=3"], chunks=48),
-              dict(name="validate-long", bin="bgpmon", config="asan", mode="validate", cases=T(480, 8000), args=["hops=32", "flips=24"], chunks=16)],
+              dict(name="validate-long", bin="bgpmon", config="asan", mode="validate", cases=T(480, 8000), args=["hops=32", "flips=24"], chunks=16),
+              dict(name="validate-very-long", bin="bgpmon", config="asan", mode="validate", cases=T(64, 1000), args=["hops=96", "flips=12"], chunks=16),
+              dict(name="concurrent", bin="bgpmon", config="asan", mode="mt", cases=T(32, 640), args=["hops=8", "threads=4"], chunks=8)],
         floors={"c11/validations": T(150000, 2000000), "c11/expected/1": T(4000, 60000), "c11/bitflip/signature": T(9000, 120000),
                 "c11/key_table/right-key-under-other-AS-only": T(1200, 18000), "c11/unequal_segment_counts": T(600, 9000)},
-        rule=("Fresh P-256 key pairs; paths of 1..8 (and 1..32) hops with arbitrary pCount / flags / AS values, IPv4 NLRI of every "
+        rule=("Fresh P-256 key pairs; paths of 1..8 (and 1..32, 1..96) hops with arbitrary pCount / flags / AS values, IPv4 NLRI of every "
               "length 0..32 and IPv6 0..128, signed hop by hop from the origin by the ORACLE's own signer over the ORACLE's own RFC 8205 "
               "4.2 octet sequence; six key-table variants (all correct; the right key registered only under another AS; a wrong key "
               "under the right AS plus the right key under a wrong AS; several keys per SKI; one SKI missing; unrelated extra keys; "
@@ -502,9 +504,11 @@ def c12():
         id="C12", level="exploration", engine="bgpmon", post=_p256_post("C12"),
         builds=[dict(name="bgpmon", config="asan", harness=["bgpmon.c"], wraps=["lrtr_dbg"])],
         runs=[dict(name="sign", bin="bgpmon", config="asan", mode="sign", cases=T(16000, 200000), args=["hops=8", "p256=3"], chunks=48),
-              dict(name="sign-long", bin="bgpmon", config="asan", mode="sign", cases=T(400, 6000), args=["hops=32"], chunks=16)],
+              dict(name="sign-long", bin="bgpmon", config="asan", mode="sign", cases=T(400, 6000), args=["hops=32"], chunks=16),
+              dict(name="sign-very-long", bin="bgpmon", config="asan", mode="sign", cases=T(96, 1500), args=["hops=96"], chunks=16),
+              dict(name="concurrent", bin="bgpmon", config="asan", mode="mt", cases=T(32, 640), args=["hops=8", "threads=4"], chunks=8)],
         floors={"c12/signatures_verified_independently": T(60000, 800000), "c12/assembled_paths_validated": T(15000, 200000), "c12/negative_cases": T(15000, 200000)},
-        rule=("For random paths (1..8 and 1..32 hops, every NLRI length of both families, arbitrary field values, keys drawn from 24 "
+        rule=("For random paths (1..8, 1..32 and 1..96 hops, every NLRI length of both families, arbitrary field values, keys drawn from 24 "
               "fresh P-256 pairs) every hop from the origin to the newest is signed through rtr_mgr_bgpsec_generate_signature; each "
               "result must be exactly one well-formed DER ECDSA-Sig-Value of the announced length and must verify under the matching "
               "public key with EVP_DigestVerify over the ORACLE's RFC 8205 4.2 octet sequence; the path assembled from the generated "
@@ -512,7 +516,10 @@ def c12():
               "and wrong-curve (P-384) private keys -> LOAD_PRIV_KEY_ERROR; unsupported suite / AFI and path_len != sigs_len + 1 (too few "
               "signatures: any count 0..n-2; too many: n) -> "
               "their specific codes with *new_signature left NULL; every negative call is made twice and must answer the same. A sample "
-              "of the EVP verdicts is re-judged by the pure-Python verifier. Distinct by hash of the path."),
+              "of the EVP verdicts is re-judged by the pure-Python verifier. concurrent: 4 threads, 150 rounds each per case, every round "
+              "signs the newest hop of a fresh path through the library (verified against the oracle's digest) and validates the "
+              "oracle-signed path (must be VALID), keys shared read-only - nothing in the property ties a call to one thread. "
+              "Distinct by hash of the path."),
         assumptions=BGP_ASSUME,
     )
 
